@@ -126,7 +126,7 @@ def _set(items):
     return "{" + ", ".join(items) + "}"
 
 
-def mc_module(name, fam, variants, possets, valseqs, errs, exacts, targets, with_rejected, nugs=(0, 1)):
+def mc_module(name, fam, variants, possets, valseqs, errs, exacts, targets, with_rejected, nugs=(0, 1), units=(0, (0, 0))):
     _n, model, dim, stretch, lens, vars_, maxfree = fam
     lens_used = sorted({len(p) for p in possets})
     vs = "[n \\in %s |-> %s]" % (
@@ -143,6 +143,7 @@ def mc_module(name, fam, variants, possets, valseqs, errs, exacts, targets, with
         "ErrSpecs": _set("[mode |-> \"%s\", e |-> %d, pat |-> %s]" % (m, e, _tla(p)) for m, e, p in errs),
         "Exacts": _set("TRUE" if e else "FALSE" for e in exacts),
         "Targets": _tla(targets),
+        "LUnit": str(units[0]), "VUnit": _tla(list(units[1])),
         "MaxFree": str(maxfree),
         "WithRejected": "TRUE" if with_rejected else "FALSE",
     }
@@ -155,7 +156,7 @@ def mc_module(name, fam, variants, possets, valseqs, errs, exacts, targets, with
 CHEAP_INVS = ["TypeOK", "ExactAtData", "ZeroVarianceAtData", "VarianceNonNegative", "VarianceLeSillSimple"]
 THM_INVS = CHEAP_INVS + ["PermutationInvariantCond", "PermutationInvariantTgt", "ChunkIndependent", "LinearInData",
                          "ReproducesConstants", "ReproducesDrift", "MeanIrrelevantWhenUnbiased", "TrendActsAsMean",
-                         "DuplicatesMerge"]
+                         "DuplicatesMerge", "LengthUnitInvariant", "ValueUnitScaling"]
 
 CHUNK_MOD = """---- MODULE MC_KrigeChunks ----
 EXTENDS KrigeSysChunks, TLC
@@ -299,11 +300,26 @@ class Capture:
         Capture.active = None
 
 
+# units of the job: (length exponent, (data exponent, covariance exponent)); cycled over the gen jobs
+UNITS = [(0, (0, 0)), (-30, (0, 0)), (0, (-30, -15)), (-40, (0, 0)), (30, (0, 0)), (-30, (-30, -15)), (0, (20, 10)), (0, (0, 0))]
+
+
+def units(cfg):
+    """(length factor, data factor, covariance factor) of a configuration: exact powers of two."""
+    ev, ec = cfg.get("vunit", [0, 0])
+    return 2.0 ** cfg.get("lunit", 0), 2.0 ** ev, 2.0 ** ec
+
+
+def unit_one(cfg):
+    return cfg.get("lunit", 0) == 0 and list(cfg.get("vunit", [0, 0])) == [0, 0]
+
+
 def make_model(cfg, flavour=0):
     import gstools as gs
 
+    lu, _vu, cu = units(cfg)
     cls = getattr(gs, cfg["model"])
-    kw = dict(var=float(cfg["var"]), len_scale=float(cfg["len"]), nugget=float(cfg["nug"]))
+    kw = dict(var=float(cfg["var"]) * cu, len_scale=float(cfg["len"]) * lu, nugget=float(cfg["nug"]) * cu)
     if cfg["dim"] == 1:
         return cls(dim=1, **kw)
     anis = 1.0 / cfg["stretch"]
@@ -334,18 +350,19 @@ def affine_normalizer(k, s):
     return _AFFINE[0](scale=float(k), shift=float(s))
 
 
-def _coords(points, dim):
-    a = np.array(points, dtype=float).reshape(-1, dim)
+def _coords(points, dim, lu=1.0):
+    a = np.array(points, dtype=float).reshape(-1, dim) * lu
     return [a[:, d].copy() for d in range(dim)]
 
 
-def _fn(ab, dim, force_callable=False):
+def _fn(ab, dim, force_callable=False, lu=1.0, vu=1.0):
+    """mean / trend a + b x of the spec, in the units of the configuration (x arrives in length units)."""
     a, b = ab
     if b == 0 and not force_callable:
-        return float(a)
+        return float(a) * vu
     if dim == 1:
-        return lambda x: a + b * np.asarray(x, dtype=float)
-    return lambda x, y: a + b * np.asarray(x, dtype=float) + 0.0 * np.asarray(y, dtype=float)
+        return lambda x: (a + b * (np.asarray(x, dtype=float) / lu)) * vu
+    return lambda x, y: (a + b * (np.asarray(x, dtype=float) / lu) + 0.0 * np.asarray(y, dtype=float)) * vu
 
 
 def build(cfg, out, perm=None, inv=("pinv", True), lognormal=False, flavour=0, boxcox=None):
@@ -360,8 +377,11 @@ def build(cfg, out, perm=None, inv=("pinv", True), lognormal=False, flavour=0, b
     pos = [cfg["pos"][i] for i in perm]
     val = np.array([float(cfg["val"][i]) for i in perm])
     model = make_model(cfg, flavour)
+    lu, vu, cu = units(cfg)
     trend_ab, mean_ab = cfg["trend"], cfg["mean"]
     tr_at = np.array([float(lin(trend_ab, p)) for p in pos])
+    if lognormal or boxcox is not None:
+        assert vu == 1.0, "normalizer wrappers are used in data unit 1 only"
     if lognormal:
         # normalize(cond_val - trend) must be the spec's (val - trend): cond_val = exp(val - trend) + trend
         val = np.exp(val - tr_at) + tr_at
@@ -369,23 +389,24 @@ def build(cfg, out, perm=None, inv=("pinv", True), lognormal=False, flavour=0, b
     elif boxcox is not None:
         norm = normalizer.BoxCox(lmbda=boxcox)
     elif cfg.get("norm", [1, 0]) != [1, 0]:
-        norm = affine_normalizer(*cfg["norm"])
+        norm = affine_normalizer(cfg["norm"][0], cfg["norm"][1] * vu)
     else:
         norm = None
+    val = val * vu
     mode = cfg["err"]["mode"]
     if mode == "nugget":
         cond_err = "nugget"
     elif mode == "scalar":
-        cond_err = float(cfg["err"]["e"]) if flavour % 2 == 0 else [float(cfg["err"]["e"])]
+        cond_err = float(cfg["err"]["e"]) * cu if flavour % 2 == 0 else [float(cfg["err"]["e"]) * cu]
     else:
-        cond_err = [float(cfg["err"]["pat"][i]) for i in perm]
+        cond_err = [float(cfg["err"]["pat"][i]) * cu for i in perm]
         if flavour % 2:
             cond_err = np.array(cond_err)
     kw = dict(exact=cfg["exact"], cond_err=cond_err, pseudo_inv=inv[1], pseudo_inv_type=inv[0])
-    cpos = _coords(pos, dim)
+    cpos = _coords(pos, dim, lu)
     cpos_arg = cpos[0] if dim == 1 and flavour % 2 == 0 else cpos
-    trend = None if trend_ab == [0, 0] else _fn(trend_ab, dim, force_callable=(flavour % 3 == 1))
-    mean = None if mean_ab == [0, 0] else _fn(mean_ab, dim)
+    trend = None if trend_ab == [0, 0] else _fn(trend_ab, dim, force_callable=(flavour % 3 == 1), lu=lu, vu=vu)
+    mean = None if mean_ab == [0, 0] else _fn(mean_ab, dim, lu=lu, vu=vu)
     edc = None if cfg["ext"] == "none" else np.array([float(out["edc"][i]) for i in perm])
     drift = None
     if cfg["drift"] == 1:
@@ -404,7 +425,7 @@ def build(cfg, out, perm=None, inv=("pinv", True), lognormal=False, flavour=0, b
     elif cls == "ExtDrift":
         k = krige.ExtDrift(model, cpos_arg, val, edc, trend=trend, **kw)
     elif cls == "Detrended" and norm is None:
-        k = krige.Detrended(model, cpos_arg, val, _fn(trend_ab, dim, force_callable=True), **kw)
+        k = krige.Detrended(model, cpos_arg, val, _fn(trend_ab, dim, force_callable=True, lu=lu, vu=vu), **kw)
     else:
         k = krige.Krige(model, cpos_arg, val, drift_functions=drift, ext_drift=edc, mean=mean, trend=trend,
                         unbiased=cfg["unb"], **kw)
@@ -414,25 +435,32 @@ def build(cfg, out, perm=None, inv=("pinv", True), lognormal=False, flavour=0, b
 def call(k, cfg, out, idx, mesh="unstructured", chunk=None, only_mean=False, return_var=True):
     """Evaluate at the targets idx (list of indices into cfg.tgt).  Returns (field, var|None) flat."""
     dim = cfg["dim"]
+    lu, vu, cu = units(cfg)
     kw = {}
     if cfg["ext"] != "none":
         kw["ext_drift"] = np.array([float(out["edt"][i]) for i in idx])
     if chunk is not None:
         kw["chunk_size"] = chunk
     if mesh == "unstructured":
-        tp = _coords([cfg["tgt"][i] for i in idx], dim)
+        tp = _coords([cfg["tgt"][i] for i in idx], dim, lu)
         res = k(tp[0] if dim == 1 else tp, only_mean=only_mean, return_var=return_var, **kw)
     else:
         if dim == 1:
-            axes = [np.array([float(cfg["tgt"][i][0]) for i in idx])]
+            axes = [np.array([float(cfg["tgt"][i][0]) for i in idx]) * lu]
         else:  # the first four targets are the grid {x0,x1} x {y0,y1} in C order
             assert idx == [0, 1, 2, 3]
-            axes = [np.array([float(cfg["tgt"][0][0]), float(cfg["tgt"][2][0])]),
-                    np.array([float(cfg["tgt"][0][1]), float(cfg["tgt"][1][1])])]
+            axes = [np.array([float(cfg["tgt"][0][0]), float(cfg["tgt"][2][0])]) * lu,
+                    np.array([float(cfg["tgt"][0][1]), float(cfg["tgt"][1][1])]) * lu]
         res = k.structured(axes, only_mean=only_mean, return_var=return_var, **kw)
+    # results are handed back in unit 1 (division by a power of two is exact)
     if return_var and not only_mean:
-        return np.asarray(res[0], dtype=float).reshape(-1), np.asarray(res[1], dtype=float).reshape(-1)
-    return np.asarray(res, dtype=float).reshape(-1), None
+        return np.asarray(res[0], dtype=float).reshape(-1) / vu, np.asarray(res[1], dtype=float).reshape(-1) / cu
+    return np.asarray(res, dtype=float).reshape(-1) / vu, None
+
+
+def get_mean_u(k, cfg):
+    gm = k.get_mean()
+    return None if gm is None else float(gm) / units(cfg)[1]
 
 
 def close(a, b, tol=TOL):
@@ -486,10 +514,17 @@ def _drift_compare(cfg, out, cap, idx, chunk, chunks_tab):
     msgs = []
     dd = float(out["dd"])
     n = len(cfg["pos"])
+    lu, _vu, cu = units(cfg)
+    nd = (2 if cfg["dim"] == 2 else 1) if cfg["drift"] == 1 else 0
+    drows = [n + int(cfg["unb"]) + j for j in range(nd)]        # functional drift rows carry the length unit
+    atol = 1e-12 * min(1.0, cu, lu)
     K = np.array(out["kmat"], dtype=float)
-    K[:n, :n] /= dd
+    K[:n, :n] *= cu / dd
+    for r in drows:
+        K[r, :n] *= lu
+        K[:n, r] *= lu
     if cap.mats:
-        if cap.mats[-1].shape != K.shape or not np.allclose(cap.mats[-1], K, atol=1e-12, rtol=0):
+        if cap.mats[-1].shape != K.shape or not np.allclose(cap.mats[-1], K, atol=atol, rtol=1e-12):
             msgs.append("kriging matrix handed to the solver differs from the documented layout")
     if cap.vecs and chunks_tab is not None:
         T = len(idx)
@@ -501,9 +536,11 @@ def _drift_compare(cfg, out, cap, idx, chunk, chunks_tab):
         else:
             R = np.array([out["rhs"][i] for i in idx], dtype=float).T
             if R.size:
-                R[:n, :] /= dd
+                R[:n, :] *= cu / dd
+                for r in drows:
+                    R[r, :] *= lu
                 for (lo, hi), _om, vec in cap.vecs:
-                    if vec.shape != R[:, lo:hi].shape or not np.allclose(vec, R[:, lo:hi], atol=1e-12, rtol=0):
+                    if vec.shape != R[:, lo:hi].shape or not np.allclose(vec, R[:, lo:hi], atol=atol, rtol=1e-12):
                         msgs.append("right-hand side of chunk (%d, %d) differs from the documented one" % (lo, hi))
                         break
     return msgs
@@ -648,7 +685,7 @@ def _replay_config(cfg, out, col, rng, chunks_tab, pid, level):
     inv_r = invs[rng.randrange(len(invs))]
     kr, _ = G("construct", build, cfg, out, inv=(inv_r[0] if inv_r[1] else "pinv", inv_r[1]), flavour=flavour + 1)
     # get_mean
-    gm = G("get_mean", kr.get_mean)
+    gm = G("get_mean", get_mean_u, kr, cfg)
     col.calls += 1
     if (gm is None) != (exp.gmean is None) or (gm is not None and not close(float(gm), exp.gmean)):
         col.violation("C06" if merged else "C05", "get_mean:%s" % cfg["cls"],
@@ -676,7 +713,7 @@ def _replay_config(cfg, out, col, rng, chunks_tab, pid, level):
     kp, _ = G("construct", build, cfg, out, perm=cp, inv=(inv_r[0] if inv_r[1] else "pinv", inv_r[1]), flavour=flavour + 2)
     f, v = G("call", call, kp, cfg, out, allidx)
     check("permuted-conditions", kp, allidx, f, v, extra={"cond_perm": cp})
-    gm = G("get_mean", kp.get_mean)
+    gm = G("get_mean", get_mean_u, kp, cfg)
     if (gm is None) != (exp.gmean is None) or (gm is not None and not close(float(gm), exp.gmean)):
         col.violation("C06" if merged else "C05", "get_mean:%s:permuted-conditions" % cfg["cls"],
                       "%s: get_mean() = %r after permuting the conditioning points, expected %r" % (cc, gm, exp.gmean),
@@ -711,7 +748,7 @@ def _replay_config(cfg, out, col, rng, chunks_tab, pid, level):
         check("LogNormal", kl, allidx, f, v, e=expl)
         f, _ = G("call", call, kl, cfg, out, allidx, only_mean=True)
         check("LogNormal:only_mean", kl, allidx, f, None, e=expl, only_mean=True)
-        gm = G("get_mean", kl.get_mean)
+        gm = G("get_mean", get_mean_u, kl, cfg)
         if (gm is None) != (expl.gmean is None) or (gm is not None and not close(float(gm), expl.gmean)):
             col.violation("C06" if merged else "C05", "get_mean:%s:LogNormal" % cfg["cls"],
                           "%s: get_mean() = %r with a LogNormal normalizer, expected %r" % (cc, gm, expl.gmean),
